@@ -65,6 +65,11 @@ Proof.
   replace (i - n) with (i + (-1) * n) by lia. apply Z.mod_add. lia.
 Qed.
 
+Lemma fftfreq_order n i :
+  0 <= i < n ->
+  nth (Z.to_nat i) (fftfreq_list n) 0 = fftfreq_index i n /\ (fftfreq_index i n) mod n = i mod n.
+Proof. intros Hi. split; [apply fftfreq_list_nth; exact Hi | apply fftfreq_index_mod; lia]. Qed.
+
 (* ------------------------------------------------------------------ patch indices *)
 Lemma patch_rows_length H n r0 : 0 <= n -> length (patch_rows H n r0) = Z.to_nat n.
 Proof. intros. unfold patch_rows. rewrite map_length. apply fftfreq_list_length. assumption. Qed.
@@ -130,6 +135,13 @@ Proof.
   assert (q = 0) by nia. subst q. lia.
 Qed.
 
+Lemma fftfreq_index_diff i i' n :
+  0 <= i < n -> 0 <= i' < n -> - n < fftfreq_index i' n - fftfreq_index i n < n.
+Proof.
+  intros Hi Hi'. pose proof (fftfreq_index_range i n Hi). pose proof (fftfreq_index_range i' n Hi').
+  pose proof (half_sum n). lia.
+Qed.
+
 (* no two pixels of the ROI read the same object pixel when the ROI fits in the object *)
 Lemma patch_index_injective H W n m r0 c0 i j i' j' :
   0 < n <= H -> 0 < m <= W ->
@@ -137,19 +149,20 @@ Lemma patch_index_injective H W n m r0 c0 i j i' j' :
   patch_index H W n m r0 c0 i j = patch_index H W n m r0 c0 i' j' -> i = i' /\ j = j'.
 Proof.
   intros Hn Hm Hi Hj Hi' Hj' Heq.
-  destruct (patch_index_decode H W n m r0 c0 i j) as [_ [Hr Hc]]; [lia | lia |].
-  destruct (patch_index_decode H W n m r0 c0 i' j') as [_ [Hr' Hc']]; [lia | lia |].
+  assert (Bi : - H < (r0 + fftfreq_index i' n) - (r0 + fftfreq_index i n) < H)
+    by (pose proof (fftfreq_index_diff i i' n Hi Hi'); lia).
+  assert (Bj : - W < (c0 + fftfreq_index j' m) - (c0 + fftfreq_index j m) < W)
+    by (pose proof (fftfreq_index_diff j j' m Hj Hj'); lia).
+  assert (HH : 0 < H) by lia. assert (HW : 0 < W) by lia.
+  destruct (patch_index_decode H W n m r0 c0 i j HH HW) as [_ [Hr Hc]].
+  destruct (patch_index_decode H W n m r0 c0 i' j' HH HW) as [_ [Hr' Hc']].
   rewrite Heq in Hr, Hc. rewrite Hr' in Hr. rewrite Hc' in Hc.
-  pose proof (fftfreq_index_range i n Hi). pose proof (fftfreq_index_range i' n Hi').
-  pose proof (fftfreq_index_range j m Hj). pose proof (fftfreq_index_range j' m Hj').
-  pose proof (half_sum n). pose proof (half_sum m).
+  pose proof (mod_window_inj H _ _ HH Bi Hr) as Er.
+  pose proof (mod_window_inj W _ _ HW Bj Hc) as Ec.
+  clear Hr Hc Hr' Hc' Heq Bi Bj.
   split.
-  - apply (fftfreq_index_inj i i' n Hi Hi').
-    assert (r0 + fftfreq_index i' n = r0 + fftfreq_index i n) by (apply (mod_window_inj H); [lia | lia | exact Hr]).
-    lia.
-  - apply (fftfreq_index_inj j j' m Hj Hj').
-    assert (c0 + fftfreq_index j' m = c0 + fftfreq_index j m) by (apply (mod_window_inj W); [lia | lia | exact Hc]).
-    lia.
+  - apply (fftfreq_index_inj i i' n Hi Hi'). lia.
+  - apply (fftfreq_index_inj j j' m Hj Hj'). lia.
 Qed.
 
 Definition patch_indices_window_statement : Prop :=
@@ -190,7 +203,8 @@ Lemma patch_index_aliases : exists H W n m r0 c0 i j i' j',
   0 <= i < n /\ 0 <= i' < n /\ 0 <= j < m /\ 0 <= j' < m /\ (i, j) <> (i', j') /\
   patch_index H W n m r0 c0 i j = patch_index H W n m r0 c0 i' j'.
 Proof.
-  exists 4, 4, 6, 4, 0, 0, 0, 0, 4, 0. vm_compute. repeat split; congruence.
+  exists 4, 4, 6, 4, 0, 0, 1, 0, 3, 0.
+  repeat split; try lia; try (intros E; discriminate E); try (vm_compute; reflexivity).
 Qed.
 
 (* ------------------------------------------------------------------ rounding split *)
@@ -216,7 +230,8 @@ Lemma round_of_integer z : round_half_even (inject_Z z) = z /\ frac_part (inject
 Proof.
   assert (H : round_half_even (inject_Z z) = z).
   { unfold round_half_even. rewrite Qfloor_Z.
-    assert (E : (inject_Z z - inject_Z z ?= 1 # 2) = Lt) by (apply Qlt_alt; lra).
+    assert (E : (inject_Z z - inject_Z z ?= 1 # 2) = Lt).
+    { assert (H0 : inject_Z z - inject_Z z == 0) by ring. rewrite H0. reflexivity. }
     rewrite E. reflexivity. }
   split; [exact H|]. unfold frac_part. rewrite H. ring.
 Qed.
@@ -254,6 +269,18 @@ Proof.
   intros Hn Hi. rewrite centre_index_closed by exact Hn. f_equal. lia.
 Qed.
 
+Lemma centre_index_all n :
+  0 < n ->
+  (forall s i, 2 * s = no_shift_origin_twice n -> 0 <= i < n -> centre_index n s i = i) /\
+  (Z.odd n = true -> forall s, 2 * s <> no_shift_origin_twice n) /\
+  (forall d i, 0 <= i < n -> centre_index n (n / 2 + d) i = (i + d) mod n).
+Proof.
+  intros Hn. split; [|split].
+  - intros s i Hs Hi. apply centre_then_fftshift_index; assumption.
+  - intros Ho s. apply odd_no_integer_origin. exact Ho.
+  - intros d i Hi. apply centre_index_floor_origin; assumption.
+Qed.
+
 (* fftshift moves the zero-frequency bin (index 0) to index floor(n/2) *)
 Lemma dc_position_spec n : 0 < n -> 0 <= dc_position n < n /\ roll_index n (n / 2) (dc_position n) = 0.
 Proof.
@@ -287,38 +314,57 @@ Proof.
   - rewrite H. reflexivity.
 Qed.
 
+Lemma Qsq_nonneg x : 0 <= x * x.
+Proof. destruct x as [a b]. unfold Qle, Qmult. cbn. nia. Qed.
+
+Lemma sum_zero_split x s : 0 <= x -> 0 <= s -> x + s == 0 -> x == 0 /\ s == 0.
+Proof. intros; split; lra. Qed.
+
+Lemma sum_zero_join x s : x == 0 -> s == 0 -> x + s == 0.
+Proof. intros; lra. Qed.
+
+Lemma sqdiff_zero a b : (a - b) * (a - b) == 0 <-> a == b.
+Proof. split; intros H; [nra | rewrite H; ring]. Qed.
+
+Lemma absdiff_zero a b : Qabs (a - b) == 0 <-> a == b.
+Proof. rewrite Qabs_zero_iff. split; intros; lra. Qed.
+
 Lemma err_l1_zero_iff p : forall t, length p = length t -> (err_l1 p t == 0 <-> Forall2 Qeq p t).
 Proof.
   induction p as [|a p IH]; intros [|b t] Hlen; try discriminate.
   - unfold err_l1. cbn. split; [constructor | reflexivity].
-  - injection Hlen as Hlen. specialize (IH t Hlen). unfold err_l1 in *. cbn [combine map qsum fst snd].
+  - injection Hlen as Hlen. specialize (IH t Hlen).
+    change (err_l1 (a :: p) (b :: t)) with (Qabs (a - b) + err_l1 p t).
     pose proof (Qabs_nonneg (a - b)) as Hab.
-    assert (Hrest : 0 <= qsum (map (fun ab : Q * Q => Qabs (fst ab - snd ab)) (combine p t))).
-    { apply qsum_nonneg. apply Forall_forall. intros x Hin. apply in_map_iff in Hin.
+    assert (Hrest : 0 <= err_l1 p t).
+    { unfold err_l1. apply qsum_nonneg. apply Forall_forall. intros x Hin. apply in_map_iff in Hin.
       destruct Hin as [[u v] [<- _]]. apply Qabs_nonneg. }
     split.
-    + intros H0. constructor.
-      * assert (Hz : Qabs (a - b) == 0) by lra. apply Qabs_zero_iff in Hz. lra.
-      * apply IH. lra.
-    + intros HF. inversion HF as [|? ? ? ? Hab0 HF']; subst. apply IH in HF'.
-      assert (Hz : Qabs (a - b) == 0) by (apply Qabs_zero_iff; lra). lra.
+    + intros H0. destruct (sum_zero_split _ _ Hab Hrest H0) as [Hz Hs]. constructor.
+      * apply absdiff_zero. exact Hz.
+      * apply IH. exact Hs.
+    + intros HF. inversion HF as [|? ? ? ? Hab0 HF']; subst. apply sum_zero_join.
+      * apply absdiff_zero. exact Hab0.
+      * apply IH. exact HF'.
 Qed.
 
 Lemma err_l2_zero_iff p : forall t, length p = length t -> (err_l2 p t == 0 <-> Forall2 Qeq p t).
 Proof.
   induction p as [|a p IH]; intros [|b t] Hlen; try discriminate.
   - unfold err_l2. cbn. split; [constructor | reflexivity].
-  - injection Hlen as Hlen. specialize (IH t Hlen). unfold err_l2 in *. cbn [combine map qsum fst snd].
-    assert (Hab : 0 <= (a - b) * (a - b)) by nra.
-    assert (Hrest : 0 <= qsum (map (fun ab : Q * Q => (fst ab - snd ab) * (fst ab - snd ab)) (combine p t))).
-    { apply qsum_nonneg. apply Forall_forall. intros x Hin. apply in_map_iff in Hin.
-      destruct Hin as [[u v] [<- _]]. cbn [fst snd]. nra. }
+  - injection Hlen as Hlen. specialize (IH t Hlen).
+    change (err_l2 (a :: p) (b :: t)) with ((a - b) * (a - b) + err_l2 p t).
+    pose proof (Qsq_nonneg (a - b)) as Hab.
+    assert (Hrest : 0 <= err_l2 p t).
+    { unfold err_l2. apply qsum_nonneg. apply Forall_forall. intros x Hin. apply in_map_iff in Hin.
+      destruct Hin as [[u v] [<- _]]. cbn [fst snd]. apply Qsq_nonneg. }
     split.
-    + intros H0. constructor.
-      * assert (Hz : (a - b) * (a - b) == 0) by lra. nra.
-      * apply IH. lra.
-    + intros HF. inversion HF as [|? ? ? ? Hab0 HF']; subst. apply IH in HF'.
-      assert (Hz : (a - b) * (a - b) == 0) by (rewrite Hab0; ring). lra.
+    + intros H0. destruct (sum_zero_split _ _ Hab Hrest H0) as [Hz Hs]. constructor.
+      * apply sqdiff_zero. exact Hz.
+      * apply IH. exact Hs.
+    + intros HF. inversion HF as [|? ? ? ? Hab0 HF']; subst. apply sum_zero_join.
+      * apply sqdiff_zero. exact Hab0.
+      * apply IH. exact HF'.
 Qed.
 
 Lemma scaled_zero_iff err batch n mi : 0 < mi -> (scaled err batch n mi == 0 <-> err == 0).
@@ -387,7 +433,7 @@ Qed.
 Lemma err_l2_nonneg p t : 0 <= err_l2 p t.
 Proof.
   unfold err_l2. apply qsum_nonneg. apply Forall_forall. intros x Hin. apply in_map_iff in Hin.
-  destruct Hin as [[u v] [<- _]]. cbn [fst snd]. nra.
+  destruct Hin as [[u v] [<- _]]. cbn [fst snd]. apply Qsq_nonneg.
 Qed.
 
 Lemma loss_zero_iff_equal : loss_zero_iff_equal_statement.
